@@ -20,7 +20,24 @@ FLOAT_FULL = re.compile(r"^[ \t\n\v\f\r]*([+-]?(?:%s|%s|%s))[ \t\n\v\f\r]*$" % (
 FLOAT_PREFIX = re.compile(r"^[ \t\n\v\f\r]*([+-]?(?:%s|%s|%s))" % (HEX, DEC, SPECIAL))
 # spellings on which scanf and this glue might disagree: nan(...), a number followed by a letter that could
 # continue it ("1e", "0x", "1e+", "infin"), digit-group or locale issues
-RISKY = re.compile(r"[nN][aA][nN]\(|[\d.][eE](?![+-]?\d)|0[xX](?![0-9a-fA-F.])|0[xX][0-9a-fA-F.]*[pP](?![+-]?\d)|[iI][nN][fF][iI]")
+RISKY_HEX = re.compile(r"^[+-]?0[xX](?![0-9a-fA-F.])|[pP](?![+-]?\d)|[pP][+-]?\d+[.\d]*[eEpP]")
+RISKY_DEC = re.compile(r"[\d.][eE](?![+-]?\d)|[nN][aA][nN]\(|[iI][nN][fF][iI]")
+
+
+class _Risky(object):
+    """Spellings on which scanf/strtod and this glue might disagree (a letter that could continue a
+    number: '1e', '0x', '1e+', 'infin', 'nan(..)'), judged token by token."""
+    def search(self, text):
+        for tok in re.split(r"[ \t\n\v\f\r]+", text):
+            if re.match(r"^[+-]?0[xX]", tok):
+                if RISKY_HEX.search(tok):
+                    return True
+            elif RISKY_DEC.search(tok):
+                return True
+        return None
+
+
+RISKY = _Risky()
 
 
 def cstr(s):
